@@ -141,10 +141,26 @@ def P6(ctx, facts):
     # ... and, for every value of the bound (the table samples two): on the fully spliced hand-back, every growth of the idle
     # sequence is dominated by an edge that establishes `idle.len() < max_idle_per_host` - the two operands being the length of
     # that sequence and the configured bound (through whatever helper parameters they travel)
-    u = pooltable.unit_of(facts, pooltable.PUSH)
-    grows = [c for c in u.calls() if re.search(r"(vec::Vec|VecDeque).*::(push|push_back|push_front|insert)$", norm(c.name)) and "idle::Idle<" in " ".join(c.t.get("argtys") or [])]
-    ctx.floor("PoolInner::push|idle-growth-sites", len(grows), 1, "growth sites of the idle sequence in the hand-back")
-    for c in grows:
+    push_fn = facts.fn(pooltable.PUSH)
+    entrances = entrance_fns(facts)
+    ctx.floor("idle-entrances", len(entrances), 1, "PoolInner operations through which a connection can become idle")
+    grows = []
+    for e in entrances:
+        ename = e.nkey.replace("client::pool::", "")
+        if e.nkey != push_fn.nkey:
+            # a second way into the idle list (e.g. an "un-pop" for cancelled checkouts): it is a hand-back like any other and
+            # has to behave as one - same table, same bound
+            src = facts.fn(e.nkey)
+            same_sig = src.argc == push_fn.argc and [norm(x) for x in src.locals[1:src.argc + 1]] == [norm(x) for x in push_fn.locals[1:push_fn.argc + 1]]
+            if same_sig:
+                pooltable.push_table(ctx, facts, label=ename, fn_name=e.nkey)
+            else:
+                ctx.undecided("%s|hand-back-table" % ename, "a second entrance to the idle list with a signature of its own: its behaviour is not covered by the hand-back table")
+        u_ = pooltable.unit_of(facts, e.nkey)
+        g_ = [c for c in u_.calls() if re.search(r"(vec::Vec|VecDeque).*::(push|push_back|push_front|insert)$", norm(c.name)) and "idle::Idle<" in " ".join(c.t.get("argtys") or [])]
+        ctx.floor("%s|idle-growth-sites" % ename, len(g_), 1, "growth sites of the idle sequence in this entrance")
+        grows += [(u_, c, ename) for c in g_]
+    for (u, c, ename) in grows:
         def is_bound(lab, c=c):
             f = lt_fact(u, lab)
             if f is None:
@@ -155,7 +171,7 @@ def P6(ctx, facts):
             b_ok = any(x.kind == "arg" and x.desc.endswith("max_idle_per_host") for x in rb)
             return a_ok and b_ok
         ok, wit = u.guarded(c.bb, is_bound)
-        ctx.check(ok, "PoolInner::push|idle-push-bounded", "the growth of the idle list is dominated by the edge `len < config.max_idle_per_host`",
+        ctx.check(ok, "%s|idle-push-bounded" % ename, "the growth of the idle list is dominated by the edge `len < config.max_idle_per_host`",
                   "a path reaches the growth of the idle list without passing `len < config.max_idle_per_host`", c.where(), u.path_desc(wit))
     # config immutable: no assignment to a `config` field of PoolInner outside PoolInner::new
     n = 0
